@@ -127,13 +127,116 @@ pub proof fn lemma_opt_items_push(cs: Seq<OPTCode>, c: OPTCode)
 """, where='after')
     c.ghost(rel, OPT_WF, 'write_to', "Ok(())", "        proof { assert(items.subrange(0, items.len() as int) =~= items); }", where='before')
 
-    for t, f, ext in [('TXT', 'txt', ('write_to', 'len')), ('SVCB', 'svcb', ('write_to', 'len')),
-                      ('NSEC', 'nsec', ('write_to', 'len')), ('IPSECKEY', 'ipseckey', ('write_to', 'len')), ('NSAP', 'nsap', ('write_to', 'len'))]:
+    # ---- TXT (RFC 1035 3.3.14): one or more <character-string>s
+    rel = 'dns/rdata/txt.rs'
+    c.append(rel, """verus!{
+pub open spec fn txt_items(cs: Seq<CharacterString>) -> Seq<Seq<u8>> { cs.map(|i: int, c: CharacterString| c.bytes()) }
+pub proof fn lemma_txt_items_push(cs: Seq<CharacterString>, c: CharacterString)
+    ensures txt_items(cs.push(c)) == txt_items(cs).push(c.bytes()), txt_items(cs.push(c)).drop_last() == txt_items(cs),
+{
+    assert(txt_items(cs.push(c)) =~= txt_items(cs).push(c.bytes()));
+    assert(txt_items(cs).push(c.bytes()).drop_last() =~= txt_items(cs));
+}
+impl<'a> TXT<'a> {
+    pub closed spec fn items(&self) -> Seq<Seq<u8>> { txt_items(self.strings@) }
+    pub closed spec fn sz(&self) -> usize { self.size }
+}
+}
+""")
+    TXT_WF = impl_header(c, rel, 'TXT')
+    wrap_type(c, rel, 'TXT', """    /// the size field is the cached encoded length (invariant kept by add_char_string and parse)
+    open spec fn wf_ok(&self) -> bool { lv8_ok(self.items()) && self.sz() == lv8_enc(self.items()).len() && self.sz() <= 65535 }
+    open spec fn wf_enc(&self) -> Seq<u8> { if self.items().len() == 0 { seq![0u8] } else { lv8_enc(self.items()) } }
+    open spec fn wf_dec(data: Seq<u8>, p: int, v: &Self, p2: int) -> bool {
+        lv8(data, p, v.items(), data.len() as int) && p2 == data.len() && v.sz() == p2 - p
+    }
+""", external_trait_fns=('write_compressed_to',))
+    c.contract(rel, TXT_WF, 'parse', "", pre_body="\n        let ghost p0 = *position as int;\n")
+    c.loop_spec(rel, TXT_WF, 'parse', 0, """
+            invariant *position <= data.len(), data.len() <= isize::MAX, p0 <= *position, initial_position == p0,
+                lv8(data@, p0, txt_items(strings@), *position as int), // @C10:txt-strings-decoded
+            decreases data.len() - *position,
+""", body_pre="\n            let ghost old_strings = strings@;\n")
+    c.ghost(rel, TXT_WF, 'parse', "strings.push(char_str);", """
+            proof {
+                lemma_txt_items_push(old_strings, strings@.last());
+                assert(strings@ =~= old_strings.push(strings@.last()));
+            }
+""", where='after')
+    c.contract(rel, TXT_WF, 'write_to', "", pre_body="""
+        let ghost items = self.items();
+        proof { assert(items.subrange(0, 0) =~= Seq::<Seq<u8>>::empty()); assert(items.len() == self.strings@.len()); }
+""")
+    c.loop_spec(rel, TXT_WF, 'write_to', 0, """
+            invariant items == txt_items(self.strings@), lv8_ok(items), 0 <= vx_it.index@ <= items.len(), items.len() == self.strings@.len(),
+                wrote(old(out), out, lv8_enc(items.subrange(0, vx_it.index@ as int))), // @C10:txt-strings-encoded
+""", iter_name='vx_it', body_pre="""
+            proof {
+                let i = vx_it.index@ as int;
+                assert(items[i] == string.bytes());
+                assert(items.subrange(0, i + 1).drop_last() =~= items.subrange(0, i));
+                assert(items.subrange(0, i + 1).last() == items[i]);
+            }
+""")
+    c.ghost(rel, TXT_WF, 'write_to', "Ok(())", "        proof { assert(items.subrange(0, items.len() as int) =~= items); }", where='before')
+
+    # ---- NSEC (RFC 4034 4.1): next domain name (never compressed) + type bit maps with strictly increasing windows
+    rel = 'dns/rdata/nsec.rs'
+    c.append(rel, """verus!{
+pub open spec fn nsec_items(ms: Seq<TypeBitMap>) -> Seq<(u8, Seq<u8>)> { ms.map(|i: int, m: TypeBitMap| (m.window_block, m.bitmap@)) }
+pub proof fn lemma_nsec_items_push(ms: Seq<TypeBitMap>, m: TypeBitMap)
+    ensures nsec_items(ms.push(m)) == nsec_items(ms).push((m.window_block, m.bitmap@)), nsec_items(ms.push(m)).drop_last() == nsec_items(ms),
+{
+    assert(nsec_items(ms.push(m)) =~= nsec_items(ms).push((m.window_block, m.bitmap@)));
+    assert(nsec_items(ms).push((m.window_block, m.bitmap@)).drop_last() =~= nsec_items(ms));
+}
+}
+""")
+    NSEC_WF = impl_header(c, rel, 'NSEC')
+    wrap_type(c, rel, 'NSEC', """    open spec fn wf_ok(&self) -> bool { name_ok(self.next_name.lv()) }
+    closed spec fn wf_enc(&self) -> Seq<u8> { arbitrary() }
+    open spec fn wf_dec(data: Seq<u8>, p: int, v: &Self, p2: int) -> bool {
+        &&& dec_labels(data, p, 0) == Some(v.next_name.lv())
+        &&& wl8(data, p + inplace_len(data, p), nsec_items(v.type_bit_maps@), data.len() as int)
+        &&& strictly_increasing_u8(nsec_items(v.type_bit_maps@))   // windows not increasing => rejected
+        &&& p2 == data.len()
+    }
+""", external_trait_fns=('write_compressed_to', 'write_to', 'len'))
+    c.sub(rel, "is_some_and(|f: &TypeBitMap<'_>| f.window_block >= window_block)",
+          "is_some_and(|f: &TypeBitMap<'_>| -> (b: bool) ensures b == (f.window_block >= window_block) { f.window_block >= window_block })")
+    c.log.append(('closure-contract', rel, 'NSEC::parse: window-order predicate gets `ensures b == (f.window_block >= window_block)`'))
+    c.contract(rel, NSEC_WF, 'parse', "", pre_body="\n        let ghost p0 = *position as int;\n")
+    c.ghost(rel, NSEC_WF, 'parse', "let mut type_bit_maps = Vec::new();", "        let ghost q0 = *position as int;", where='after')
+    c.loop_spec(rel, NSEC_WF, 'parse', 0, """
+            invariant *position <= data.len(), data.len() <= isize::MAX, q0 <= *position,
+                wl8(data@, q0, nsec_items(type_bit_maps@), *position as int), // @C10:nsec-bitmaps-decoded
+                strictly_increasing_u8(nsec_items(type_bit_maps@)), // @C10:nsec-windows-increasing
+            decreases data.len() - *position,
+""", body_pre="\n            let ghost old_maps = type_bit_maps@;\n")
+    c.ghost(rel, NSEC_WF, 'parse', "type_bit_maps.push(TypeBitMap {", """
+            proof {
+                assert forall|i: int| 0 <= i < old_maps.len() implies (#[trigger] nsec_items(old_maps)[i]).0 < window_block by {
+                    let n = old_maps.len() as int;
+                    assert(nsec_items(old_maps)[n - 1].0 == old_maps.last().window_block);
+                    assert(old_maps.last().window_block < window_block);
+                    if i < n - 1 { assert(nsec_items(old_maps)[i].0 < nsec_items(old_maps)[n - 1].0); }
+                }
+            }
+""", where='before')
+    c.ghost(rel, NSEC_WF, 'parse', "type_bit_maps.push(TypeBitMap {", """
+            proof {
+                lemma_nsec_items_push(old_maps, type_bit_maps@.last());
+                assert(type_bit_maps@ =~= old_maps.push(type_bit_maps@.last()));
+            }
+""", where='after')
+
+    for t, f, ext in [('SVCB', 'svcb', ('write_to', 'len')),
+                      ('IPSECKEY', 'ipseckey', ('write_to', 'len')), ('NSAP', 'nsap', ('write_to', 'len'))]:
         rel = 'dns/rdata/%s.rs' % f
         wrap_type(c, rel, t, WEAK, external_trait_fns=('write_compressed_to',) + ext)
-    for f in ('txt', 'svcb', 'nsec'):
+    for f in ('svcb',):
         rel = 'dns/rdata/%s.rs' % f
-        t = {'txt': 'TXT', 'opt': 'OPT', 'svcb': 'SVCB', 'nsec': 'NSEC'}[f]
+        t = {'svcb': 'SVCB'}[f]
         c.loop_spec(rel, impl_header(c, rel, t), 'parse', 0, LOOP_INV)
     c.wrap('dns/rdata/opt.rs', "pub mod masks {")
     c.wrap('dns/rdata/opt.rs', "pub struct OPTCode<'a> {")
